@@ -45,6 +45,43 @@ fn decodings(r: &[u8]) -> Vec<Vec<u8>> {
     let mut out = vec![r.to_vec()];
     let text: String = String::from_utf8_lossy(r).chars().filter(|c| !c.is_whitespace()).collect();
     let tb = text.as_bytes();
+    // CBOR: arrays of small integers anywhere in a CBOR item (serde encodes [u8; 32] that way)
+    if let Ok(v) = ciborium::de::from_reader::<ciborium::value::Value, _>(r) {
+        fn walk(v: &ciborium::value::Value, out: &mut Vec<Vec<u8>>) {
+            match v {
+                ciborium::value::Value::Array(a) => {
+                    let ints: Vec<u8> = a.iter().filter_map(|x| x.as_integer().and_then(|i| u8::try_from(i128::from(i)).ok())).collect();
+                    if ints.len() == a.len() && ints.len() >= 16 {
+                        out.push(ints);
+                    }
+                    for x in a {
+                        walk(x, out);
+                    }
+                }
+                ciborium::value::Value::Map(m) => {
+                    for (k, x) in m {
+                        walk(k, out);
+                        walk(x, out);
+                    }
+                }
+                ciborium::value::Value::Tag(_, x) => walk(x, out),
+                ciborium::value::Value::Bytes(b) => {
+                    // nested CBOR inside byte strings (authenticator data, attestation object)
+                    if b.len() > 37 {
+                        for off in [0usize, 37, 55] {
+                            if off < b.len() {
+                                if let Ok(inner) = ciborium::de::from_reader::<ciborium::value::Value, _>(&b[off..]) {
+                                    walk(&inner, out);
+                                }
+                            }
+                        }
+                    }
+                }
+                _ => {}
+            }
+        }
+        walk(&v, &mut out);
+    }
     // decimal lists
     let mut i = 0;
     while i < tb.len() {
@@ -175,6 +212,10 @@ fn raw_salt(sel: u8) -> Option<[u8; 32]> {
 }
 
 fn prf_ext(n: u8, input: &[u8], raw: u8) -> Option<AuthenticationExtensionsClientInputs> {
+    if n == 3 {
+        // the PRF extension requested without any input (the usual "is PRF enabled" probe)
+        return Some(AuthenticationExtensionsClientInputs { cred_props: None, prf: Some(AuthenticationExtensionsPrfInputs { eval: None, eval_by_credential: None }), prf_already_hashed: None });
+    }
     (n > 0).then(|| match raw_salt(raw) {
         // boundary salts handed over as pre-hashed inputs
         Some(s) => AuthenticationExtensionsClientInputs {
@@ -257,7 +298,7 @@ pub fn check(ctx: &mut Ctx, c: &Case) -> Result<(), String> {
         }
         1 => {
             let mut auth = auth;
-            let salts = |n: u8| AuthenticatorPrfInputs { eval: (n > 0).then(|| AuthenticatorPrfValues { first: raw_salt(c.raw_salt).unwrap_or_else(|| crate::model::util::sha256(&c.prf_input)), second: (n > 1).then_some(if c.raw_salt % 4 == 0 { [9u8; 32] } else { [0u8; 32] }) }), eval_by_credential: None };
+            let salts = |n: u8| AuthenticatorPrfInputs { eval: (n > 0 && n < 3).then(|| AuthenticatorPrfValues { first: raw_salt(c.raw_salt).unwrap_or_else(|| crate::model::util::sha256(&c.prf_input)), second: (n > 1).then_some(if c.raw_salt % 4 == 0 { [9u8; 32] } else { [0u8; 32] }) }), eval_by_credential: None };
             let req = make_credential::Request {
                 client_data_hash: crate::model::util::sha256(&c.challenge).to_vec().into(),
                 rp: make_credential::PublicKeyCredentialRpEntity { id: site.effective.into(), name: None },
@@ -312,7 +353,12 @@ pub fn check(ctx: &mut Ctx, c: &Case) -> Result<(), String> {
             let mut auth = auth;
             let app = crate::model::util::sha256(site.effective.as_bytes());
             let chal = crate::model::util::sha256(&c.challenge);
-            let handle = b"c06-u2f-key-handle".to_vec();
+            // key handles are chosen by the caller: usually a string, sometimes empty or a single byte
+            let handle = match c.challenge.len() % 3 {
+                0 => vec![],
+                1 => b"c06-u2f-key-handle".to_vec(),
+                _ => vec![c.challenge.len() as u8],
+            };
             let res = block_on(U2fApi::register(&mut auth, RegisterRequest { challenge: chal, application: app }, &handle));
             let mut sc = Scanner::new(&stored(&store));
             total_secrets += sc.secrets.len();
@@ -359,6 +405,12 @@ fn self_test() -> Result<(), String> {
         ("debug", format!("{blob:?}").into_bytes()),
         ("debug alt", format!("{blob:#?}").into_bytes()),
         ("second half only", format!("{:?}", &blob[23..]).into_bytes()),
+        ("cbor array of integers", {
+            let arr: [u8; 32] = secret.clone().try_into().unwrap();
+            let mut b = vec![];
+            ciborium::ser::into_writer(&ciborium::value::Value::Map(vec![(ciborium::value::Value::Integer(6.into()), ciborium::value::Value::serialized(&arr).unwrap())]), &mut b).unwrap();
+            b
+        }),
     ];
     for (name, r) in reps {
         let mut sc = Scanner::new(std::slice::from_ref(&snapx));
@@ -376,8 +428,8 @@ fn case() -> impl Strategy<Value = Case> {
         proptest::bool::weighted(0.7),
         any::<u8>(),
         any::<u8>(),
-        0u8..3,
-        0u8..3,
+        0u8..4,
+        0u8..4,
         proptest::collection::vec(any::<u8>(), 0..40),
         proptest::option::weighted(0.3, crate::ceremony::json_extra()),
         prop_oneof![3 => Just(0u8), 2 => Just(1u8), 1 => Just(2u8)],
